@@ -28,8 +28,11 @@ MANIFEST_ENTRY = {
             "P0029 unsupported standard blocks) are modelled as functions of the facts of the resolved library and proved exact "
             "against declarative readings (accepted iff ...), with the alias walk's termination; each model is run against its "
             "rule module alone on the facts of every generated library (same codes at the same places, in order) and reports "
-            "only problems the module names (regenerated table). NOT proved: that undeclared types are diagnosed (the late-bound "
-            "transformations are not modelled); and the whole-pipeline claim (parse, sort, resolve, all rules together), which is "
+            "only problems the module names (regenerated table). Undeclared types (P0022) and duplicate type names (P0020): the "
+            "late-bound type-initializer transformation is modelled on the type facts of the library and proved to accept exactly "
+            "when every referenced type is elementary, a standard function block or declared, and to report ALL undeclared "
+            "references (compared with the transformation run alone: new initializer kinds or diagnostics). NOT proved: the other "
+            "transformations (alias resolution of data types, expression kinds) and the whole-pipeline claim (parse, sort, resolve, all rules together), which is "
             "decided by planting each documented fault at every site of generated valid programs (both directions: valid units "
             "must be accepted with no code, each single fault must be rejected with its code).",
     "note": "Trusted: Coq kernel, translator (stage lists, shape of semantic()/resolve_types()), extraction + driver, harness op "
@@ -140,6 +143,12 @@ def search(run, info):
     aimed = [[("u.st", rules_corr.gen_unit(rng))] for _ in range(600 if run.tier == "quick" else 6000)]
     ra_n, ra_bad = rules_corr.check(run, aimed, info, "aimed")
     rl_n += ra_n
+    # the late-bound type transformation (undeclared types, P0022) against its Coq model: the generated units, and units
+    # aimed at type references (declared / undeclared / elementary / standard / duplicate names, every kind of type)
+    ty_n, ty_bad = rules_corr.check_types(run, sc_sets[:: (3 if run.tier == "quick" else 1)], info, "c02")
+    tu = [[("u.st", rules_corr.gen_type_unit(rng))] for _ in range(500 if run.tier == "quick" else 5000)]
+    tu_n, tu_bad = rules_corr.check_types(run, tu, info, "aimed")
+    ty_n += tu_n
     # correspondence of the proved rule models with the implementation
     mcases = []
     mlines = []
@@ -195,6 +204,7 @@ def search(run, info):
         "double_faults": len(doubles),
         "scope_walks_compared_with_model": sc_n,
         "rule_fact_streams_compared_with_model": rl_n,
+        "type_fact_streams_compared_with_model": ty_n,
         "exhaustive": False}}
 
 
